@@ -23,7 +23,7 @@ SYNC_CALLS = {"cudaDeviceSynchronize", "cudaStreamSynchronize", "cudaEventSynchr
 ANNOTATION_CHOICES = ["", "ProfilerStep", "forward", "loss", "optimizer", "data_loading", "u_block_a", "u_block_b", "ProfilerStep#"]
 
 CP_OPTS = dict(steps=[0, 1, 2, 3, 3], w_launch=7, w_sync=3, w_op=4, w_rt=1, max_top=5, streams=3, second_thread=True,
-               event_sync=False, lead_op=False, ensure_kernel=False, kdurs=[1, 2, 4, 7, 12, 20, 30], first_op_children=True, annotation_weight=2, max_depth=4, cuda_events=True)
+               event_sync=False, lead_op=False, ensure_kernel=False, kdurs=[1, 2, 4, 7, 12, 20, 30], first_op_children=True, annotation_weight=2, max_depth=4, cuda_events=True, align_ends=True)
 
 
 class Window:
@@ -175,6 +175,44 @@ def topo_longest_path(nodes: List[int], edges: List[Tuple[int, int, float]]) -> 
                 order.append(v)
     acyclic = len(order) == len(nodes)
     return (max(best.values()) if best else 0.0), acyclic
+
+
+def heaviest_path_ties(nodes: List[int], edges: List[Tuple[int, int, float]]) -> int:
+    """Number of nodes lying on some maximum-weight path that are reached with that weight through >= 2 different
+    predecessors (the analysis may pick either; a restored or re-used graph must report the one it picked)."""
+    succ: Dict[int, List[Tuple[int, float]]] = {n: [] for n in nodes}
+    pred: Dict[int, List[Tuple[int, float]]] = {n: [] for n in nodes}
+    indeg = {n: 0 for n in nodes}
+    for u, v, w in edges:
+        succ[u].append((v, w))
+        pred[v].append((u, w))
+        indeg[v] += 1
+    order = [n for n in nodes if indeg[n] == 0]
+    i = 0
+    while i < len(order):
+        for v, _ in succ[order[i]]:
+            indeg[v] -= 1
+            if indeg[v] == 0:
+                order.append(v)
+        i += 1
+    if len(order) != len(nodes):
+        return 0
+    best = {n: 0.0 for n in nodes}
+    for u in order:
+        for v, w in succ[u]:
+            best[v] = max(best[v], best[u] + w)
+    back = {n: 0.0 for n in nodes}
+    for u in reversed(order):
+        for v, w in succ[u]:
+            back[u] = max(back[u], back[v] + w)
+    top = max(best.values()) if best else 0.0
+    n_ties = 0
+    for v in nodes:
+        if best[v] > 0 and abs(best[v] + back[v] - top) < 1e-9:
+            tight = [u for u, w in pred[v] if abs(best[u] + w - best[v]) < 1e-9]
+            if len(tight) >= 2:
+                n_ties += 1
+    return n_ties
 
 
 def view(case):
